@@ -82,6 +82,22 @@ fn run_case(keys: &str, msgs: &[(Spec, Built)], orc: &mut Oracle, rec: &mut Reco
                 _ => f(format!("routes-from-peer-not-up on {}", built.token)),
             }
         }
+        // a Peer Down withdraws exactly that peer's ingress id, a Termination all up peers' ids
+        if !violation {
+            match (spec, &o.down) {
+                (Spec::PeerDown(h), d) => {
+                    let want = peers_before.iter().find(|p| hdr_index(p) == *h).map(|p| p.ingress_id);
+                    if Some(d.clone()) != want.map(Down::WithdrawPeer) { f(format!("peer-down-withdraws-wrong-id on {} got {:?} want {:?}", built.token, d, want)); }
+                }
+                (Spec::Term, d) => {
+                    let mut ids: Vec<u32> = peers_before.iter().map(|p| p.ingress_id).collect();
+                    ids.sort();
+                    let want = if ids.is_empty() { Down::Nothing } else { Down::WithdrawAll(ids) };
+                    if *d != want { f(format!("termination-withdraws-wrong-ids got {:?} want {:?}", d, want)); }
+                }
+                _ => {}
+            }
+        }
         if o.down == Down::Mixed || o.out == "panic" { f(format!("unexpected-output {} on {}", o.out, built.token)); }
         // (4) downstream is a function of (message, up set)
         let key = (built.token.clone(), upset.clone());
